@@ -25,7 +25,7 @@ Inductive iop :=
 (* one reconcile of the deleting node by the real termination controller: NodeClaim present?, its termination
    timestamp annotation, its Drained condition before, clock, listed pods [observed: result class, Drained
    condition after, signalled pods, queue after] *)
-| INode (has_claim deleting : bool) (a : ann) (c : dcond) (now : Z) (idx : list Z)
+| INode (g : gate) (has_claim deleting : bool) (a : ann) (c : dcond) (now : Z) (idx : list Z)
         (res : nres) (cafter : dcond) (evs : list key) (qafter : queue)
 (* one reconcile with a drain pass inside its unlocked window: the reconcile of pod idx reads its queue entry, then
    a complete Drain pass (dnow, ddl, didx) runs [observed: derr, devs, queue qmid], then the reconcile continues at
@@ -77,7 +77,10 @@ Definition dcond_eqb (a b : dcond) : bool :=
   | _, _ => false
   end.
 Definition nres_eqb (a b : nres) : bool :=
-  match a, b with NError, NError | NRequeue, NRequeue | NDrained, NDrained => true | _, _ => false end.
+  match a, b with
+  | NError, NError | NRequeue, NRequeue | NDrained, NDrained | NSkip, NSkip | NGone, NGone => true
+  | _, _ => false
+  end.
 
 Definition tag (b : bool) (t : string) : list string := if b then [] else [t].
 
@@ -131,9 +134,9 @@ Definition check_step (tbl : list pod) (qo : queue) (o : iop) : list string * qu
                 else true
             | _, _ => true
             end) "oracle:race-stale-deadline", qa)
-  | INode hc del a c now idx res cafter evs qa =>
+  | INode g hc del a c now idx res cafter evs qa =>
       let pods := map (lookup tbl) idx in
-      let '(qm, cm, rm, dm) := node_pass qo hc del a c now pods in
+      let '(qm, cm, rm, dm) := node_pass g qo hc del a c now pods in
       (tag (forallb (valid_idx tbl) idx) "corr:bad-index" ++
        tag (nres_eqb rm res) "corr:node-result" ++
        tag (dcond_eqb cm cafter) "corr:node-drained-condition" ++
@@ -141,17 +144,22 @@ Definition check_step (tbl : list pod) (qo : queue) (o : iop) : list string * qu
        tag (queue_eqb qm qa) "corr:node-queue" ++
        (* the queue changed as under a drain pass with the NodeClaim's termination timestamp (no claim / no
           annotation: no deadline); unparsable annotation: the queue is untouched *)
-       tag (match claim_deadline hc a with
+       (* the queue is untouched, or changed as under a drain pass with the NodeClaim's termination timestamp
+          (no claim / no annotation: no deadline) *)
+       tag (queue_eqb qa qo ||
+            match claim_deadline hc a with
             | Some dl =>
                 let n := Z.of_nat (List.length (filter (waiting_b now) pods)) in
                 entry_ok_b (mkE qo (ODrain now dl pods) (OutD (mkD (if (n =? 0) then DOk else DWaiting n) evs)) qa)
-            | None => queue_eqb qa qo && nres_eqb res NError
+            | None => false
             end) "oracle:node-deadline" ++
-       (* Drained only when nothing is waiting and MinDrainTime has passed *)
-       tag (match res with
-            | NDrained => forallb (fun p => negb (waiting_b now p)) pods &&
-                          (negb hc || match c with CTrue => true | CUnknown s => min_drain <=? now - s | CAbsent => false end)
-            | _ => true
+       (* Drained / finalizer removed only when nothing is waiting and MinDrainTime has passed (unless the instance is gone) *)
+       tag (match res, g with
+            | NGone, GInstanceGone => true
+            | NDrained, _ | NGone, _ =>
+                forallb (fun p => negb (waiting_b now p)) pods &&
+                (negb hc || match c with CTrue => true | CUnknown s => min_drain <=? now - s | CAbsent => false end)
+            | _, _ => true
             end) "oracle:node-drained-early", qa)
   | IRestart qa =>
       (tag (queue_eqb (fst (step qo ORestart)) qa) "corr:restart-queue" ++
